@@ -1,4 +1,4 @@
-"""C05 (partial) — mypyc-compiled code behaves like the interpreted source, for three mechanisms.
+"""C05 (partial) — mypyc-compiled code behaves like the interpreted source, for five mechanisms.
 
 (1) spec/CtrlFlow.tla: TLC generates structured-control-flow programs (try / except / else / finally x
     return / break / continue / raise / bare raise x loops x nested functions) together with the
@@ -1285,9 +1285,12 @@ def main(argv: list[str]) -> int:
         samples=[sample],
     )
     return v.finish("exploration", cov, [
-        "C05 is decided only for three mechanisms: structured control flow (try/except/else/finally, loops, jumps, bare "
+        "C05 is decided only for five mechanisms: structured control flow (try/except/else/finally, loops, jumps, bare "
         "raise, nested functions), argument binding of wrapper functions, method / property resolution on native classes "
-        "and traits.  Everything else the property quantifies over (expressions, containers, generators, ...) is not reached.",
+        "and traits, the special-method slot contracts (__hash__/__eq__, __len__/__bool__, __contains__/__getitem__/"
+        "__setitem__/__delitem__, rich comparisons, __add__/__radd__/__iadd__), for loops over builtin containers the body "
+        "mutates.  Everything else the property quantifies over (expressions, other container primitives, generators, ...) "
+        "is not reached.",
         "programs the working tree's mypyc does not compile are outside the property's premise: they are counted under "
         "compile_rejected and excluded (the decision is made by mypyc's own front end + code generator per unit)",
         "exact TypeError message texts of argument binding are compared verbatim, like every other exception message",
